@@ -515,6 +515,17 @@ func ReachablePointers(root any, pkgPath string) []any {
 	return out
 }
 
+// CountMaps: the non-nil maps of the named map type ("pkg/path.Name") reachable from root.
+func CountMaps(root any, typeName string) int {
+	n := 0
+	heapWalk(reflect.ValueOf(root), nil, map[uintptr]bool{}, nil, nil, func(m reflect.Value) {
+		if m.Type().PkgPath()+"."+m.Type().Name() == typeName {
+			n++
+		}
+	})
+	return n
+}
+
 func IsPointer(x any) bool {
 	return x != nil && reflect.TypeOf(x).Kind() == reflect.Pointer
 }
